@@ -71,21 +71,22 @@ def float_table(cps):
     return out
 
 
-def has_real(env, T, seen=None):
+def has_kind(env, T, kind, seen=None):
+    """Does the type contain a component of the given kind (REAL, ENUM)?"""
     seen = seen or set()
     k = T['k']
     if k == 'REF':
         if T['name'] in seen:
             return False
-        return has_real(env, env['types'][T['name']], seen | {T['name']})
-    if k == 'REAL':
+        return has_kind(env, env['types'][T['name']], kind, seen | {T['name']})
+    if k == kind:
         return True
     if k in ('SEQ', 'SET'):
-        return any(has_real(env, m['t'], seen) for m in values.all_members(T))
+        return any(has_kind(env, m['t'], kind, seen) for m in values.all_members(T))
     if k == 'CHOICE':
-        return any(has_real(env, a['t'], seen) for a in values.all_alts(T))
+        return any(has_kind(env, a['t'], kind, seen) for a in values.all_alts(T))
     if k in ('SEQOF', 'SETOF'):
-        return has_real(env, T['e'], seen)
+        return has_kind(env, T['e'], kind, seen)
     return False
 
 
@@ -119,9 +120,12 @@ def run_batch(batch, indents, numerics, out):
     for c in batch:
         env, top = c['env'], c['env']['types'][c['top']]
         name = c['map'][c['top']]
-        want_reals = has_real(env, top)
+        want_reals = has_kind(env, top, 'REAL')
+        has_enum = has_kind(env, top, 'ENUM')
         obs = []
         for ne in numerics:
+            if ne and not has_enum:
+                continue                     # numeric_enums only changes how ENUMERATED values are passed
             if ne in compile_err:
                 obs.append({'vi': 0, 'codec': 'gser', 'ne': ne, 'ind': -1, 'compile': compile_err[ne]})
                 continue
